@@ -41,13 +41,20 @@ RULE = ("1-5 generated datasources per archive, each returning one provider or a
         "with/without final newline; the host-side source of the kinds whose provider cuts it into lines "
         "itself (text file, command / container output, a datasource's string) ends its lines with LF "
         "(~55 % of the elements), CRLF, a lone CR, a mixture of the three, and - command kinds and "
-        "datasource strings - any other character str.splitlines cuts at; evaluated by dr.run with "
+        "datasource strings - any other character str.splitlines cuts at; file and directory names, the "
+        "arguments on a command line, the recorded args and the message of a raising datasource are often "
+        "(file names 45 %, directories 27 %, command tails 33 %) *host names*: bytes that are not valid "
+        "UTF-8 as the os layer delivers them (surrogate-escaped, e.g. b'caf\\xe9.conf'; 40 % of the host "
+        "names), astral / combining / bidi / BOM / separator "
+        "characters, ASCII with a meaning in JSON or a shell (quote, backslash, control characters, newline, "
+        "%s, literal \\uXXXX), or any characters at all; evaluated by dr.run with "
         "Hydration.make_persister as observer; "
         "then per metadata entry one of {none, delete, truncate at offset, non-JSON bytes, unknown "
         "component name, valid JSON of wrong shape, referenced data file deleted, entry replaced by a "
         "directory / dangling symlink}; loaded by Hydration.hydrate or hydration.initialize_broker. "
         "Non-trivial: some persisted element has non-ASCII content, an empty line at an edge or a "
-        "source with a line terminator other than LF, or "
+        "source with a line terminator other than LF, or a location / command / argument that is not "
+        "plain printable text (non-UTF-8, astral, control character, quote or backslash), or "
         "(fault part) at least one damaged and one intact entry that carries results.")
 ASSUMPTIONS = [
     "the executables /bin/echo, /bin/ls, /bin/cat, /usr/bin/env and cp exist (providers validate "
@@ -62,8 +69,13 @@ EXCLUDED = [
     "a line-break character (anything str.splitlines splits on: \\n \\r \\x0b \\x0c \\x1c-\\x1e \\x85 "
     "\\u2028 \\u2029) *inside* a line, i.e. in a line a datasource hands over in a list, and in a "
     "collected file any of them other than the newline conventions LF / CRLF / CR (the file reader keeps "
-    "those inside the line); lone surrogates - outside 'Unicode text without line-break characters'. "
-    "Between the lines of a source that the provider cuts up itself they are generated (round 4)",
+    "those inside the line); lone surrogates *in the content* - outside 'Unicode text without line-break "
+    "characters'. Between the lines of a source that the provider cuts up itself the line-break characters "
+    "are generated (round 4); in file names, command lines, arguments and error messages surrogate-escaped "
+    "bytes are generated (round 5)",
+    "a quote or backslash in the path of a ContainerFileProvider (the path is put unquoted into a command "
+    "line that shlex cuts up; the provider refuses it before anything is persisted); save_as values other "
+    "than the fixed ones (they are constants of a spec definition, not host names)",
     "the return code rc (serializers store the return value of write(), always None; not among the "
     "attributes the statement lists) and cmd/args of ContainerFileProvider (models a file)",
     "a cleaner attached to the providers (C08/C10), filters on the generated datasources (C07), "
@@ -102,6 +114,26 @@ GONE = ("delete", "truncate", "nonjson", "unknown", "dir", "symlink")   # entry 
 NONJSON = [[], [103, 97, 114, 98, 97, 103, 101], [123], [123, 39, 110, 97, 109, 101, 39, 58, 32, 49, 125],
            [255, 254, 0], [91, 49, 44, 32, 50], [0, 1, 2], [123, 34, 110, 97, 109, 101, 34, 58],
            [239, 187, 191, 123, 125], [10, 10], [125, 123]]
+# Byte sequences that are not valid UTF-8. Linux file names are bytes; the os layer (listdir, glob, argv)
+# hands such a name to Python surrogate-escaped (b"caf\xe9" -> "caf\udce9"), and from there it travels
+# into relative locations, command lines, arguments and error messages.
+BAD_UTF8 = [[0xe9], [0xff], [0x80], [0xb5], [0xc3], [0xe2, 0x82], [0xed, 0xa0, 0x80], [0xc0, 0xaf],
+            [0xf5, 0x80, 0x80, 0x80], [0x93, 0xfa, 0x96, 0x7b], [0xfc, 0x62, 0x65, 0x72], [0xe9, 0xe8]]
+NAME_STEMS = [u"caf", u"conf", u"x", u"ifcfg-", u"r\u00e9sum", u"\u65e5\u672c", u"a b", u"", u"90-", u"UP"]
+NAME_EXTS = [u"", u".conf", u".log", u".d", u".rules", u"~"]
+# valid Unicode that a metadata writer has to escape / encode with care: outside the BMP (a surrogate
+# *pair* in an escaped document), combining, bidi and zero-width characters, BOM, line / paragraph
+# separators (legal in a file name), full-width forms, case-folding oddities
+UNI_NAMES = [u"\U0001f600.log", u"\U00010348\U0001f4a9", u"e\u0301a\u0308", u"\u202egnp.exe", u"\ufeffbom",
+             u"ls\u2028ps\u2029", u"nel\x85", u"\uff46\uff55\uff4c\uff4c", u"nb\xa0sp", u"\u0130i\u0131I",
+             u"zw\u200b\u200d", u"\ufffd\ufffe", u"\xff\xfe", u"\u0660\u0663", u"\u05e9\u05dc\u05d5\u05dd",
+             u"\U0001f1e9\U0001f1ea de", u"x\U000e0041\U0010ffff", u"\U00020000\u4e2d"]
+# ASCII a document format or a shell gives a meaning to (all legal in a file name)
+ASCII_NAMES = [u'dq"name', u"it's", u"back\\slash", u"tab\there", u"nl\nname", u"cr\rname", u"\x01ctl", u"del\x7f",
+               u"\x1b[31mred", u'{"k": 1}', u"%s", u"%(x)s %d", u"\\u00e9", u"\\udce9", u"$HOME", u"`id`", u"*",
+               u"?", u"[ab]", u"~", u"-rf", u" lead", u"trail ", u"#c", u"a;b&c|d>e", u"null", u"a,b]", u"<x>&amp;"]
+SHELL_SPECIAL = u"'\"\\"               # what shlex gives a meaning to besides blanks
+
 UNKNOWN = ["no.such.module.comp", SYNTH + ".absent", "absent", "", SYNTH + "..", "insights.core.dr.nope",
            "%(name)sx", "X%(name)s", "%(upper)s"]
 
@@ -160,6 +192,39 @@ def renamed_location(prefix, rel, save_as):
     return prefix + "/" + loc if prefix else loc
 
 
+def fsname(bs):
+    """the str the os layer hands over for a file name made of the bytes `bs` (UTF-8 file system
+    encoding: bytes that are not valid UTF-8 become the lone surrogates U+DC80..U+DCFF)"""
+    return bytes(bytearray(bs)).decode("utf-8", "surrogateescape")
+
+
+def shell_word(s):
+    """`s` as one argument of a command line that shlex cuts up: as it is when shlex keeps it in one
+    piece, quoted otherwise (an argument with a blank or a quote has to be quoted by whoever builds
+    the command line)"""
+    if s and not any(ch in s for ch in SHELL_SPECIAL + u" \t\r\n"):
+        return s
+    return shlex.quote(s)
+
+
+def string_classes(s):
+    """classes of a string that ends up in the metadata (location, command, argument, error text)"""
+    labs = set()
+    for ch in s:
+        o = ord(ch)
+        if 0xDC80 <= o <= 0xDCFF:
+            labs.add("non-utf8")
+        elif o > 0xFFFF:
+            labs.add("astral")
+        elif o < 0x20 or o == 0x7f:
+            labs.add("control")
+        elif ch in u'"\\':
+            labs.add("quote-backslash")
+        elif o > 0x7f:
+            labs.add("non-ascii")
+    return labs
+
+
 def _sweep_stale_tmp():
     """A worker that is terminated in the middle of a case (core stops the pool at the first failure)
     cannot run its finally-clause; remove the directories of processes that no longer exist."""
@@ -205,6 +270,27 @@ def selftest():
         assert which(exe, env=SAFE_ENV), "executable %s needed by the generator is missing" % exe
     for t in CMD_TAILS:
         shlex.split(t)
+    # names as the os layer hands them over: not valid UTF-8 -> surrogate-escaped, and back
+    for bs in BAD_UTF8:
+        n = fsname([99, 97, 102] + bs + [46, 99])
+        assert any(0xDC80 <= ord(ch) <= 0xDCFF for ch in n), (bs, n)
+        assert os.fsencode(n) == bytes(bytearray([99, 97, 102] + bs + [46, 99])), bs
+        assert string_classes(n) == {"non-utf8"}, (bs, string_classes(n))
+        try:
+            n.encode("utf-8")
+        except UnicodeEncodeError:
+            pass
+        else:
+            raise AssertionError("%r is valid UTF-8" % (bs,))
+    assert fsname([99, 97, 102, 0xc3, 0xa9]) == u"caf\xe9" and fsname([0xe9]) == u"\udce9"
+    assert json.loads(json.dumps(fsname([0xe9, 0x2e]))) == u"\udce9."
+    for n in UNI_NAMES + ASCII_NAMES + NAME_STEMS + NAME_EXTS:
+        assert u"/" not in n and u"\x00" not in n and len(os.fsencode(n)) < 100, n
+        assert shlex.split(u"x " + shell_word(n) + u" y") == [u"x", n, u"y"], n
+    assert shell_word(u"caf\udce9.conf") == u"caf\udce9.conf" and shell_word(u"a b") == u"'a b'"
+    assert shell_word(u"") == u"''" and shlex.split(shell_word(u"it's")) == [u"it's"]
+    assert string_classes(u"abc d") == set() and string_classes(u"\U0001f600\x01\"\xe9") == {
+        "astral", "control", "quote-backslash", "non-ascii"}
     if sys.flags.utf8_mode != 1 and "utf" not in (sys.getfilesystemencoding() or "").lower():
         raise AssertionError("file system encoding is not UTF-8; non-ASCII file names cannot be created")
 
@@ -571,7 +657,9 @@ def check(case):
         if os.path.isdir(meta_root):
             for fn in sorted(os.listdir(meta_root)):
                 p = os.path.join(meta_root, fn)
-                with open(p) as f:
+                # read leniently: how the entry is encoded is the business of the code under test as long as
+                # its own reader gets back what was persisted (escaped ASCII on the unchanged tree)
+                with open(p, encoding="utf-8", errors="surrogateescape") as f:
                     try:
                         d = json.load(f)
                     except ValueError:
@@ -598,6 +686,8 @@ def check(case):
             doc = docs[name][1]
             if cd.get("fail"):
                 labels.add("comp:failed")
+                for c in string_classes(cd.get("fail_msg", "boom")):
+                    labels.add("meta:%s@error" % c)
                 errs = doc.get("errors")
                 if doc.get("results") is not None:
                     raise Violation("failed component %s persisted with results" % name, doc=doc)
@@ -670,7 +760,7 @@ def check(case):
                 if rloc != e["loc"]:
                     raise Violation("component %s element %d (%s): persisted at %r, the renaming rule gives %r"
                                     % (name, k, e["plan"]["kind"], rloc, e["loc"]),
-                                    save_as=e["plan"]["save_as"], relative_path=e["orig"].relative_path)
+                                    save_as=repr(e["plan"]["save_as"]), relative_path=repr(e["orig"].relative_path))
                 if not os.path.isfile(os.path.join(data_root, rloc)):
                     raise Violation("component %s element %d: no data file at the recorded location %r"
                                     % (name, k, rloc))
@@ -698,7 +788,7 @@ def check(case):
             raise Violation("hydrate did not return a broker", got=repr(loaded))
 
         n_intact = n_damaged = 0
-        nt_content = False
+        nt_content = nt_meta = False
         for ci in range(len(comps)):
             comp, name = comps[ci], dr.get_name(comps[ci])
             elems = expected[ci]
@@ -742,6 +832,21 @@ def check(case):
                     if labs & set(["content:non-ascii", "content:leading-empty", "content:trailing-empty"]) \
                             or p.get("terms"):
                         nt_content = True
+                # the strings of this element that went through the metadata document
+                meta = [("path", e["loc"])]
+                if p["kind"] in CMD_KINDS:
+                    meta.append(("cmd", orig.cmd))
+                    a = orig.args
+                    meta.extend(("args", x) for x in (a if isinstance(a, (list, tuple)) else [a]) if isinstance(x, str))
+                for place, text in meta:
+                    cls = string_classes(text)
+                    for c in cls:
+                        labels.add("meta:%s@%s" % (c, place))
+                        labels.add("meta:" + c)
+                    if cls - set(["non-ascii"]):
+                        nt_meta = True
+                    if not cls:
+                        labels.add("meta:plain@" + place)
                 if p["kind"] in CMD_KINDS:
                     if g.cmd != orig.cmd:
                         raise Violation("%s: cmd %r after loading, %r when persisted" % (where, g.cmd, orig.cmd))
@@ -758,9 +863,11 @@ def check(case):
             labels.add("nt:damaged+intact")
         if nt_content:
             labels.add("nt:content")
+        if nt_meta:
+            labels.add("nt:meta-string")
         if n_intact == 0:
             labels.add("no-intact-entry")
-        return {"nontrivial": bool(nt_fault or nt_content), "labels": sorted(labels)}
+        return {"nontrivial": bool(nt_fault or nt_content or nt_meta), "labels": sorted(labels)}
     finally:
         logging.disable(prev_disable)
         try:
@@ -829,8 +936,67 @@ def _seps(draw, kind):
     return draw(st.lists(st.sampled_from(NEWLINES + OTHER_SEPS + [u"\n\r"]), min_size=1, max_size=3))
 
 
-_argval = st.one_of(_plain, _nonascii, st.sampled_from([u"", u"eth0", u"/dev/sda1", u"a b"]))
+# ---- names: what a file / directory / command argument can be called on the host ---------------------
+# (they travel into the relative location, the command line, the arguments and the error texts, i.e. into
+# the metadata document, never into the content)
+
+_badbytes = st.one_of(st.sampled_from(BAD_UTF8), st.lists(st.integers(0x80, 0xff), min_size=1, max_size=4))
+_name_nonutf8 = st.builds(lambda a, bad, b, ext: a + fsname(bad) + b + ext, st.sampled_from(NAME_STEMS), _badbytes,
+                          st.sampled_from([u"", u"", u"-1", u"\xe9", u" b", u"\udcff", u"\U0001f600"]), st.sampled_from(NAME_EXTS))
+_NAME_STYLES = ["plain"] * 6 + ["non-utf8", "non-utf8", "unicode", "ascii", "any"]
+
+
+def _shell_plain(names):
+    return [n for n in names if not any(ch in n for ch in SHELL_SPECIAL)]
+
+
+@st.composite
+def _oddname(draw, shell_plain=False, styles=("non-utf8", "non-utf8", "unicode", "ascii", "any")):
+    """A name outside [A-Za-z0-9 ._-] + a few CJK letters: bytes that are not valid UTF-8 (surrogate-escaped,
+    as listdir / glob / argv deliver them), demanding valid Unicode, ASCII with a meaning in JSON or a shell,
+    or any characters at all. `shell_plain`: the name is put unquoted into a command line that shlex cuts
+    up (a container file path), so quotes and backslashes stay out."""
+    style = draw(st.sampled_from(list(styles)))
+    if style == "non-utf8":
+        return draw(_name_nonutf8)
+    if style == "unicode":
+        return draw(st.sampled_from(UNI_NAMES))
+    if style == "ascii":
+        return draw(st.sampled_from(_shell_plain(ASCII_NAMES) if shell_plain else ASCII_NAMES))
+    # no "/" and NUL (not possible in a name), no "." (a generated directory can then never coincide with
+    # a generated file, whose name always ends in ".<digits>")
+    return draw(st.text(st.characters(exclude_categories=("Cs",),
+                                      exclude_characters=u"/\x00." + (SHELL_SPECIAL if shell_plain else u"")),
+                        min_size=1, max_size=8))
+
+
+@st.composite
+def _fname(draw, shell_plain=False):
+    style = draw(st.sampled_from(_NAME_STYLES))
+    if style == "plain":
+        return draw(st.sampled_from(NAMES))
+    return draw(_oddname(shell_plain, styles=(style,)))
+
+
+@st.composite
+def _dname(draw, shell_plain=False):
+    style = draw(st.sampled_from(["plain"] * 8 + ["sub", "sub", "odd"]))
+    if style == "plain":
+        return draw(st.sampled_from(DIRS))
+    odd = draw(_oddname(shell_plain))
+    return odd if style == "odd" else draw(st.sampled_from(DIRS)) + u"/" + odd
+
+
+_argval = st.one_of(_plain, _nonascii, st.sampled_from([u"", u"eth0", u"/dev/sda1", u"a b"]), _oddname())
 _args = st.one_of(st.none(), _argval, st.lists(_argval, min_size=1, max_size=3))
+# the rest of a command line: fixed texts, or 1-2 host names used as arguments (foreach_execute over a
+# directory listing), each one shlex word
+_tail = st.one_of(st.sampled_from(CMD_TAILS), st.sampled_from(CMD_TAILS),
+                  st.builds(lambda pre, ws: u" ".join(pre + [shell_word(w) for w in ws]),
+                            st.sampled_from([[], [u"-l"], [u"checked"], [u"--file"]]),
+                            st.lists(_oddname(), min_size=1, max_size=2)))
+_failmsg = st.one_of(st.sampled_from([u"boom", u"no such thing: /x", u"\xfcn\xef failure", u"a 'quoted' msg"]),
+                     st.builds(lambda n: u"[Errno 2] No such file or directory: '/etc/conf.d/%s'" % n, _oddname()))
 
 
 @st.composite
@@ -851,8 +1017,8 @@ def _item(draw, tier, rich):
             if seps:
                 it["seps"] = seps
     if kind in ("text", "raw", "ds_list", "ds_str", "cfile"):
-        it["dir"] = draw(st.sampled_from(DIRS))
-        it["name"] = draw(st.sampled_from(NAMES))
+        it["dir"] = draw(_dname(shell_plain=(kind == "cfile")))
+        it["name"] = draw(_fname(shell_plain=(kind == "cfile")))
     if kind in ("text", "raw", "ds_list", "ds_str"):
         it["lead_slash"] = draw(st.booleans())
     if kind in ("text", "raw", "ds_list", "ds_str", "cmd"):
@@ -864,7 +1030,7 @@ def _item(draw, tier, rich):
         it["keep_rc"] = draw(st.booleans())
         it["rc"] = draw(st.sampled_from([0, 0, 1, 2, 127]))
     if kind in ("cmd", "ccmd"):
-        it["tail"] = draw(st.sampled_from(CMD_TAILS))
+        it["tail"] = draw(_tail)
         it["args"] = draw(_args)
         it["args_tuple"] = draw(st.booleans())
     if kind == "ccmd":
@@ -881,7 +1047,7 @@ def _comp(draw, tier, rich, fail_rate):
     cd = {"multi": multi, "nested": draw(st.sampled_from([False, False, True]))}
     if draw(st.integers(0, 99)) < fail_rate:
         cd["fail"] = draw(st.sampled_from(FAIL_TYPES))
-        cd["fail_msg"] = draw(st.sampled_from([u"boom", u"no such thing: /x", u"ünï failure", u"a 'quoted' msg"]))
+        cd["fail_msg"] = draw(_failmsg)
     cd["items"] = draw(st.lists(_item(tier, rich), min_size=1, max_size=4 if multi else 1))
     return cd
 
